@@ -176,14 +176,21 @@ func (fs *FS) Rename(oldname, newname string) error {
 		return &hackpadfs.LinkError{Op: "rename", Old: oldname, New: newname, Err: hackpadfs.ErrNotImplemented}
 	}
 
+	linkErr := func(err error) error {
+		// a rename across mounts reports its failure like any other rename: as a LinkError in the caller's namespace
+		if pathErr, ok := err.(*hackpadfs.PathError); ok {
+			err = pathErr.Err
+		}
+		return &hackpadfs.LinkError{Op: "rename", Old: oldname, New: newname, Err: err}
+	}
 	oldFile, err := oldMount.Open(oldSubPath)
 	if err != nil {
-		return err
+		return linkErr(err)
 	}
 	defer func() { _ = oldFile.Close() }()
 	newFile, err := hackpadfs.OpenFile(newMount, newSubPath, hackpadfs.FlagWriteOnly|hackpadfs.FlagCreate|hackpadfs.FlagTruncate, oldInfo.Mode())
 	if err != nil {
-		return err
+		return linkErr(err)
 	}
 	newFileWriter, ok := newFile.(io.Writer)
 	if !ok {
@@ -193,7 +200,10 @@ func (fs *FS) Rename(oldname, newname string) error {
 	_, err = io.Copy(newFileWriter, oldFile)
 	if err != nil {
 		_ = hackpadfs.Remove(newMount, newSubPath)
-		return err
+		return linkErr(err)
 	}
-	return hackpadfs.Remove(oldMount, oldSubPath)
+	if err := hackpadfs.Remove(oldMount, oldSubPath); err != nil {
+		return linkErr(err)
+	}
+	return nil
 }
